@@ -80,3 +80,17 @@ def native_histories(prop, module, mode, histories, extra=None, message=""):
     rr = native.run_replay(exe, path)
     mm = [l for l in rr.get("output", "").splitlines() if "VERIF-VALIDATE-MISMATCH" in l]
     return {"outcome": rr["outcome"], "message": (mm[0][:500] if mm else rr["message"]), "path": path, "n": len(histories)}
+
+
+def native_scenarios(prop, mode, scenarios, message="", extra=None):
+    """node-level native scenarios of harness/hist_store.rs (real store actors + state-machine components)"""
+    from lib import native
+    exe, berr = native.build()
+    body = {"engine": "smt", "mode": mode, "scenarios": scenarios, "message": message}
+    body.update(extra or {})
+    path = native.write_replay(prop, "store", "scenario", [], body)
+    if exe is None:
+        return {"outcome": "error", "message": "native build failed: " + berr[-300:], "path": path}
+    rr = native.run_replay(exe, path, timeout=600)
+    mm = [l for l in rr.get("output", "").splitlines() if "VERIF-VALIDATE-MISMATCH" in l]
+    return {"outcome": rr["outcome"], "message": (mm[0][:500] if mm else rr["message"]), "path": path, "tags": rr.get("tags", [])}
